@@ -496,7 +496,18 @@ pub fn o_free_space(prop: &str, ops: &[Op], ex: &Exec) -> V {
         }
     }
     // fs-info after unmount
-    if let (Some((lead, strc, trail, free, next)), Some(Ok(fin))) = (ex.suffix.fsinfo, &ex.suffix.final_decoded) {
+    // (only when the library actually wrote the sector during this session)
+    let fsinfo_written = match &ex.suffix.final_decoded {
+        Some(Ok(fin)) if fin.geo.width == 32 => {
+            let st = ex.st.borrow();
+            let off = fin.geo.fsinfo_sector as u64 * fin.geo.bps as u64;
+            let now = st.read_vec(off, 512);
+            let base = crate::dev::DevState::new(st.base.clone()).read_vec(off, 512);
+            now != base
+        }
+        _ => false,
+    };
+    if let (true, Some((lead, strc, trail, free, next)), Some(Ok(fin))) = (fsinfo_written, ex.suffix.fsinfo, &ex.suffix.final_decoded) {
         if !(lead && strc && trail) {
             push(&mut v, format!("{prop}/fsinfo/signatures"), format!("{lead} {strc} {trail}"));
         }
@@ -828,6 +839,51 @@ pub fn o_readonly(prop: &str, ex: &Exec, stats_exception: bool) -> V {
             }
             push(&mut v, format!("{prop}/write-in-read-only-session/{:?}", g.region(r.off)), format!("write of {} bytes at {} (op #{})", r.len, r.off, r.op_idx));
             break;
+        }
+    }
+    v
+}
+
+/// C12: the dirty bit brackets structural changes; clean unmount restores the status byte.
+pub fn o_dirty(prop: &str, ops: &[Op], ex: &Exec) -> V {
+    let mut v = V::new();
+    if ex.panic.is_some() || !ex.completed {
+        return v;
+    }
+    let kind = ops.last().map_or("init", op_kind);
+    // did this very call change allocation / entry sets / sizes / data (independent decode)?
+    let changed_now = match (&ex.pre, &ex.post, ops.last()) {
+        (_, _, Some(Op::Remount | Op::DropRemount | Op::Abandon)) => false,
+        (Some(Ok(a)), Some(Ok(b)), _) => {
+            let fa = a.flat();
+            let fb = b.flat();
+            let sets_differ = fa.len() != fb.len()
+                || fa.iter().zip(fb.iter()).any(|((ka, na), (kb, nb))| ka != kb || na.is_dir != nb.is_dir || na.size != nb.size || na.content != nb.content);
+            sets_differ || a.free != b.free || a.owner != b.owner
+        }
+        _ => false,
+    };
+    let changed = ex.model.changed_since_mount || changed_now;
+    let mount = ex.status_byte_at_mount;
+    if changed && ex.status_post & 1 == 0 {
+        push(&mut v, format!("{prop}/dirty-bit-clear-after-change/{kind}"), format!("status byte {:#04x} after a structural change (mount-time {mount:#04x})", ex.status_post));
+    }
+    if ex.status_post & mount & 3 != mount & 3 {
+        push(&mut v, format!("{prop}/mount-time-status-bit-cleared/{kind}"), format!("status byte {:#04x}, mount-time {mount:#04x}", ex.status_post));
+    }
+    if let Some(r) = &ex.abandoned_boundary_flags {
+        match r {
+            Ok((dirty, _io)) => {
+                if (changed || mount & 1 != 0) && !dirty {
+                    push(&mut v, format!("{prop}/abandoned-volume-not-reported-dirty/{kind}"), format!("changed={changed} mount-time {mount:#04x}, remount reports clean"));
+                }
+            }
+            Err(e) => push(&mut v, format!("{prop}/abandoned-volume-does-not-mount"), format!("{e:?}")),
+        }
+    }
+    if let Some(Ok(())) = &ex.suffix.unmount {
+        if ex.suffix.status_unmounted != mount {
+            push(&mut v, format!("{prop}/unmount-did-not-restore-status/{kind}"), format!("status byte {:#04x} after unmount, mount-time {mount:#04x}", ex.suffix.status_unmounted));
         }
     }
     v
